@@ -162,6 +162,9 @@ func genPrioList(rng *rand.Rand, maxN int, maxMag uint) []uint {
 		out = append(out, p)
 	}
 	sort.Slice(out, func(i, j int) bool { return out[i] > out[j] })
+	if len(out) >= 2 && rng.IntN(8) == 0 {
+		out[len(out)-1] = 0 // priority 0 is a priority like any other (its share is nothing); the sum stays positive
+	}
 	return out
 }
 
